@@ -4,6 +4,7 @@ package c18
 import (
 	"bytes"
 	"fmt"
+	"github.com/thushan/olla/internal/core/domain"
 	"io"
 	"net"
 	"os"
@@ -45,6 +46,10 @@ type Item struct {
 	// Route: "" = /olla/proxy/; "translated" = a streaming Anthropic request translated for an
 	// OpenAI-compatible backend (only generated for aborts before the backend has answered)
 	Route string `json:"route,omitempty"`
+	// Fast (abort after k chunks): the backend does not wait for the client to go away but keeps
+	// producing at full speed (3000 more chunks of 2 KiB back to back), so the client leaves in the
+	// middle of a running stream
+	Fast bool `json:"fast,omitempty"`
 }
 
 type Case struct {
@@ -106,13 +111,33 @@ func genItem(t *rapid.T) Item {
 	case "abort":
 		it.Chunks = genChunks(t, 6)
 		it.At = rapid.IntRange(0, len(it.Chunks)-1).Draw(t, "at")
+		it.Fast = rapid.Bool().Draw(t, "fast")
+		if it.Fast && it.Framing == "cl" {
+			it.Framing = "chunked" // the stream is longer than the chunks listed
+		}
 		// a third of the aborts: the client leaves while the backend has not answered yet
 		if rapid.IntRange(0, 2).Draw(t, "early") == 0 {
+			it.Fast = false
 			it.At = -1
 			it.Route = rapid.SampledFrom([]string{"", "translated"}).Draw(t, "route")
 		}
 	}
 	return it
+}
+
+// limitFast keeps at most two "client leaves a running stream" aborts per batch: the olla engine books
+// such an attempt as a failure of the endpoint, and five of them in a row open its breaker, which
+// would turn the rest of the batch into a test of the breaker (C08) rather than of streaming
+func limitFast(c *Case) {
+	n := 0
+	for i := range c.Items {
+		if c.Items[i].Fast {
+			n++
+			if n > 2 {
+				c.Items[i].Fast = false
+			}
+		}
+	}
 }
 
 func genCase(t *rapid.T) Case {
@@ -126,11 +151,13 @@ func genCase(t *rapid.T) Case {
 		for i := 0; i < n; i++ {
 			c.Items = append(c.Items, it)
 		}
+		limitFast(&c)
 		return c
 	}
 	for i := 0; i < n; i++ {
 		c.Items = append(c.Items, genItem(t))
 	}
+	limitFast(&c)
 	return c
 }
 
@@ -177,6 +204,12 @@ func script(it Item, id string, gated bool) backend.Script {
 		if (it.Kind == "stall" || it.Kind == "abort") && i == it.At {
 			if it.Kind == "stall" {
 				s.Steps = append(s.Steps, backend.Step{Op: "pause", Ms: 30}, backend.Step{Op: "stall", Ms: int(backendStallLimit.Milliseconds())})
+			} else if it.Fast {
+				// keeps producing; the exchange ends when writing to the dropped connection fails
+				for k := 0; k < 3000; k++ {
+					s.Steps = append(s.Steps, backend.Step{Op: "body", N: 2048, Chunked: it.Framing == "chunked"})
+				}
+				s.Steps = append(s.Steps, backend.Step{Op: "stall", Ms: 15000})
 			} else {
 				// wait for the client to go away; the backend notices through its peer watcher
 				s.Steps = append(s.Steps, backend.Step{Op: "pause", Ms: 30}, backend.Step{Op: "stall", Ms: 15000})
@@ -242,6 +275,11 @@ func runItem(r *rig.Rig, c Case, it Item) []ev.Violation {
 			return nil
 		}
 		want := backend.Tile(be.ID, 0, total)
+		if (resp.Status == 502 || resp.Status == 503) && len(resp.Body) < 400 && !bytes.HasPrefix(resp.Body, want[:min(len(want), 8)]) && batchHasFast(c) {
+			// Olla refused the request itself (its breaker counted the running streams clients left): not a streaming matter
+			rec.Class("complete/refused-by-olla-in-a-batch-with-fast-aborts")
+			return vs
+		}
 		if gated && acked < len(bounds) {
 			bad("stream-not-delivered-live/"+tag+"/"+it.CT, "chunk %d of %d never reached the client while the backend was waiting for its acknowledgement (client has %d of %d bytes after %v): %s", acked+1, len(bounds), len(resp.Body), total, time.Since(t0).Round(time.Millisecond), desc)
 		} else if !bytes.Equal(resp.Body, want) {
@@ -259,6 +297,10 @@ func runItem(r *rig.Rig, c Case, it Item) []ev.Violation {
 		if err != nil {
 			rec.Inconclusive("client: " + err.Error())
 			return nil
+		}
+		if batchHasFast(c) && (resp.Status == 502 || resp.Status == 503) && be.ExchangeFor(id, 50*time.Millisecond) == nil {
+			rec.Class("stall/refused-by-olla-in-a-batch-with-fast-aborts")
+			return vs
 		}
 		if it.At >= 0 {
 			if dur > readTimeout+5*time.Second {
@@ -298,6 +340,12 @@ func runItem(r *rig.Rig, c Case, it Item) []ev.Violation {
 			return vs // the abort point was never reached (e.g. the response did not start): nothing to judge
 		}
 		ex := be.ExchangeFor(id, 2*time.Second)
+		if ex == nil && batchHasFast(c) {
+			// clients leaving running streams count as endpoint failures in the olla engine; five in a row
+			// open its breaker and later requests of the batch are refused by Olla itself
+			rec.Class("abort/refused-by-olla-in-a-batch-with-fast-aborts")
+			return vs
+		}
 		if ex == nil {
 			bad("request-never-reached-backend/"+tag, "%s", desc)
 			return vs
@@ -322,6 +370,15 @@ func runItem(r *rig.Rig, c Case, it Item) []ev.Violation {
 		}
 	}
 	return vs
+}
+
+func batchHasFast(c Case) bool {
+	for _, it := range c.Items {
+		if it.Fast {
+			return true
+		}
+	}
+	return false
 }
 
 func peerClosed(ex *backend.Exchange) time.Time { return ex.PeerClosedAt() }
@@ -356,6 +413,10 @@ func runEarlyAbort(r *rig.Rig, c Case, it Item, id, tag, desc string) []ev.Viola
 		_ = cn.SetReadDeadline(time.Now().Add(time.Second))
 		b, _ := io.ReadAll(io.LimitReader(cn, 300))
 		cn.Close()
+		if batchHasFast(c) {
+			rec.Class("abort/refused-by-olla-in-a-batch-with-fast-aborts")
+			return vs
+		}
 		bad("request-never-reached-backend/"+tag, "%s; client read %q", desc, b)
 		return vs
 	}
@@ -467,6 +528,42 @@ func runCase(c Case) []ev.Violation {
 		}
 		vs = append(vs, ev.Violation{Sig: leakSig, Detail: fmt.Sprintf("engine=%s profile=%s after a batch of %v and 8 s of quiet: %d goroutines (baseline %d), %d upstream connections still open", c.Engine, c.Profile, kinds, g, base, open)})
 	}
+	// what a batch leaves behind must not touch later exchanges: after aborts and stalls, a few plain
+	// complete streams, one after the other, must arrive whole
+	disturbed := false
+	for _, it := range c.Items {
+		if it.Kind == "abort" || it.Kind == "stall" {
+			disturbed = true
+		}
+	}
+	if disturbed && len(vs) == 0 {
+		rec.Class("aftermath-streams-after-aborts-or-stalls")
+		r.S.SetAll(domain.StatusHealthy) // stalls and aborts may have taken the endpoint out of rotation
+		for round := 0; round < 3 && len(vs) == 0; round++ {
+			var aw sync.WaitGroup
+			var amu sync.Mutex
+			for k := 0; k < 8; k++ {
+				aw.Add(1)
+				go func(k int) {
+					defer aw.Done()
+					after := Item{Kind: "complete", CT: "text/event-stream", Framing: []string{"chunked", "cl"}[k%2], Chunks: []int{1000, 1000, 1000, 1000, 1124}}
+					for _, v := range runItem(r, c, after) {
+						if strings.Contains(v.Detail, "(status 502 ") || strings.Contains(v.Detail, "(status 503 ") {
+							// Olla refused the request itself (endpoint breaker opened by the batch's stalls): not a streaming matter
+							rec.Class("aftermath/refused-by-olla")
+							continue
+						}
+						v.Sig = "after-batch/" + v.Sig
+						v.Detail = "a plain complete stream sent after the batch (which contained aborts/stalls) had ended: " + v.Detail
+						amu.Lock()
+						vs = append(vs, v)
+						amu.Unlock()
+					}
+				}(k)
+			}
+			aw.Wait()
+		}
+	}
 	if len(vs) == 0 {
 		rec.Sample(map[string]any{"engine": c.Engine, "profile": c.Profile, "items": c.Items[:min(3, len(c.Items))]})
 	}
@@ -484,10 +581,10 @@ var _ = strings.Join
 
 func TestC18(t *testing.T) {
 	defer rig.StopAll()
-	rec.SetRule("batches of 4..16 concurrent exchanges through the full stack (engine x proxy profile), each one of: gated stream (the backend sends chunk k+1 only after the client acknowledged chunk k; 1..12 chunks of 1 B..256 KiB), complete stream with pauses <= 400 ms (1..30 chunks; a quarter of them 5..7 chunks 400 ms apart, so the stream outlasts the 1.5 s read timeout while no pause comes near it), stall after the headers / after k chunks (or before the headers), client abort after k chunks or before the backend has answered (the latter also on the translated Anthropic streaming route); content types SSE, NDJSON, JSON, text, binary; framings chunked, Content-Length, close-delimited; read timeout 1.5 s. A third of the batches (and 8 fixed probes) repeat one exchange n times. After every batch goroutine count and upstream connections must return to the baseline (+2 goroutines slack). non-trivial = gated stream with >=3 chunks in a streaming mode, stall after >=1 chunk, abort mid-body; distinct by (engine, profile, item)")
+	rec.SetRule("batches of 4..16 concurrent exchanges through the full stack (engine x proxy profile), each one of: gated stream (the backend sends chunk k+1 only after the client acknowledged chunk k; 1..12 chunks of 1 B..256 KiB), complete stream with pauses <= 400 ms (1..30 chunks; a quarter of them 5..7 chunks 400 ms apart, so the stream outlasts the 1.5 s read timeout while no pause comes near it), stall after the headers / after k chunks (or before the headers), client abort after k chunks (the backend then waiting, or still producing at full speed) or before the backend has answered (the latter also on the translated Anthropic streaming route); content types SSE, NDJSON, JSON, text, binary; framings chunked, Content-Length, close-delimited; read timeout 1.5 s. A third of the batches (and 8 fixed probes) repeat one exchange n times. After every batch goroutine count and upstream connections must return to the baseline (+2 goroutines slack). Sub-check 'leave': 4..12 clients, one after the other, read 1 B..300 KB of a stream that is still running at full speed and leave; each departure is followed by 2..4 ordinary streams, which must arrive whole with status 200. non-trivial = gated stream with >=3 chunks in a streaming mode, stall after >=1 chunk, abort mid-body; distinct by (engine, profile, item)")
 	rec.Assume("liveness is judged causally (gates), not by wall clock; time bounds are one-sided: stall ends within read timeout + 5 s while the backend itself only gives up after read timeout + 12 s; cancellation within 5 s; pauses <= 300 ms (a fifth of the timeout) must never be cut")
 	rec.Assume("octet-stream under the auto profile and everything under the standard profile is documented as buffered: only completeness is checked there")
-	if ev.Replay(t, rec, "stream", runCase) {
+	if ev.Replay(t, rec, "stream", runCase) || ev.Replay(t, rec, "leave", runLeave) {
 		return
 	}
 	// deterministic probes: homogeneous batches of each way an exchange can end early
@@ -508,4 +605,5 @@ func TestC18(t *testing.T) {
 		}
 	}
 	ev.Check(t, rec, "stream", rec.Pick(12, 150), genCase, runCase)
+	ev.Check(t, rec, "leave", rec.Pick(10, 160), genLeave, runLeave)
 }
